@@ -290,6 +290,7 @@ def handleFront2 (j : Json) : R Json := do
       let (envM, env) := envs p pid state pid0 zcode
       return jObj [("model", jInitRes (frontInit ign ct (identFault cfg p m call e envM))),
                    ("spec", jInitRes (Spec.initExpected p e env ign)),
+                   ("also", jList jInitRes (Spec.initAlso p call env)),
                    ("tolerated", jList jInitRes (if Spec.knownZombieDeviation p.family e env then [.built none none false] else []))]
   else if fn == "eq" then
     let obn ← boolF j "obn"
